@@ -824,8 +824,10 @@ func runOracleRaw(c *Case) Verdict {
 	// 2. meaning
 	var unl string
 	optsPermuted := false // the file option statements of x and F(x) are the same multiset
+	var u2 *descriptorpb.FileDescriptorProto
 	if uerr1 == nil {
-		u2, uerr2 := unlinked(n2)
+		var uerr2 error
+		u2, uerr2 = unlinked(n2)
 		if uerr2 != nil {
 			v.Key, v.Msg = "meaning:formatted-descriptor-error", fmt.Sprintf("descriptor of the original builds, of the formatted file fails: %v\n--- formatted:\n%s", uerr2, out1)
 			return v
@@ -851,7 +853,7 @@ func runOracleRaw(c *Case) Verdict {
 			onlyFileOptions := bytes.Equal(detBytes(l1), detBytes(l2))
 			l1.Options, l2.Options = o1, o2
 			if onlyFileOptions && o1 != nil && o2 != nil && (sameFieldMultiset(o1, o2) || optsPermuted) {
-				v.Key, v.Msg = "meaning:repeated-option-reordered", "values of a repeated file option were reordered and the compiled descriptors differ: "+firstDiff(l1, l2)+"\n--- formatted:\n"+out1
+				v.Key, v.Msg = reorderKey(u1, u2, n1), "values of a repeated file option were reordered and the compiled descriptors differ: "+firstDiff(l1, l2)+"\n--- formatted:\n"+out1
 			} else {
 				v.Key, v.Msg = "meaning:linked-descriptor-differs", firstDiff(l1, l2)+"\n--- formatted:\n"+out1
 			}
@@ -859,7 +861,7 @@ func runOracleRaw(c *Case) Verdict {
 		}
 	} else if unl != "" {
 		if unl == "reordered" {
-			v.Key, v.Msg = "meaning:repeated-option-reordered", "file options with the same name were reordered (uninterpreted_option order differs)\n--- formatted:\n"+out1
+			v.Key, v.Msg = reorderKey(u1, u2, n1), "file options with the same name were reordered (uninterpreted_option order differs)\n--- formatted:\n"+out1
 		} else {
 			v.Key, v.Msg = "meaning:descriptor-differs", unl+"\n--- formatted:\n"+out1
 			if anyURLDropped(n1, n2) {
@@ -1115,6 +1117,85 @@ func sameFieldMultiset(a, b proto.Message) bool {
 		}
 	}
 	return true
+}
+
+// canonOptionName resolves the spelling of a file option name against the file's package: (x),
+// (p3.x), (p1.p2.p3.x) and (.p1.p2.p3.x) all denote p1.p2.p3.x inside package p1.p2.p3.
+func canonOptionName(uo *descriptorpb.UninterpretedOption, pkg string) string {
+	var parts []string
+	for _, p := range uo.Name {
+		n := p.GetNamePart()
+		if p.GetIsExtension() {
+			if strings.HasPrefix(n, ".") {
+				n = n[1:]
+			} else {
+				comps := strings.Split(pkg, ".")
+				resolved := false
+				for k := len(comps); k >= 1 && pkg != ""; k-- {
+					suffix := strings.Join(comps[len(comps)-k:], ".") + "."
+					if strings.HasPrefix(n, suffix) {
+						n = pkg + "." + n[len(suffix):]
+						resolved = true
+						break
+					}
+				}
+				if !resolved && !strings.Contains(n, ".") && pkg != "" {
+					n = pkg + "." + n
+				}
+			}
+			n = "(" + n + ")"
+		}
+		parts = append(parts, n)
+	}
+	return strings.Join(parts, ".")
+}
+
+// reorderKey decides on the input which of the two reorder findings a reordering belongs to:
+// different-spelling iff every option whose values changed their relative order is written with at
+// least two different spellings in the file; unstable-sort otherwise.
+func reorderKey(u1, u2 *descriptorpb.FileDescriptorProto, n1 *ast.FileNode) string {
+	const base = "meaning:repeated-option-reordered:"
+	if u1 == nil || u2 == nil {
+		return base + "unstable-sort"
+	}
+	pkg := u1.GetPackage()
+	type group struct {
+		spellings map[string]bool
+		seq       []string
+	}
+	collect := func(fd *descriptorpb.FileDescriptorProto) map[string]*group {
+		out := map[string]*group{}
+		for _, uo := range fd.GetOptions().GetUninterpretedOption() {
+			k := canonOptionName(uo, pkg)
+			g := out[k]
+			if g == nil {
+				g = &group{spellings: map[string]bool{}}
+				out[k] = g
+			}
+			g.spellings[optName(uo)] = true
+			c := proto.Clone(uo).(*descriptorpb.UninterpretedOption)
+			c.Name = nil
+			b, _ := proto.MarshalOptions{Deterministic: true}.Marshal(c)
+			g.seq = append(g.seq, string(b))
+		}
+		return out
+	}
+	g1, g2 := collect(u1), collect(u2)
+	reordered, allMultiSpelled := 0, true
+	for k, a := range g1 {
+		b := g2[k]
+		if b == nil || strings.Join(a.seq, "\x00") == strings.Join(b.seq, "\x00") {
+			continue
+		}
+		reordered++
+		if len(a.spellings) < 2 {
+			allMultiSpelled = false
+		}
+	}
+	if reordered > 0 && allMultiSpelled {
+		return base + "different-spelling"
+	}
+	return base + "unstable-sort"
 }
 
 // anyURLDropped: the input has more `[prefix/type]` references than the output.
